@@ -503,6 +503,14 @@ inductive ReplyRes where
   | unsupported
 deriving DecidableEq, Repr
 
+/-- the end of the branch: build the messages of the chunks, send the first `instant` ones, store the rest -/
+def deliver (e : Env) (cfg : Cfg) (lines : List Str) : ReplyRes :=
+  let msgs := buildMsgs e lines.reverse []
+  let (sent, rest) := instantLoop cfg.instant msgs []
+  match popLast rest with
+  | none => .sent sent none
+  | some (x, stored) => .sent (sent ++ [x]) (some stored)
+
 /-- first half of the branch: the (possibly truncated) text, and whether it goes out as one message -/
 def prepare (e : Env) (cfg : Cfg) (s : Str) : Option (Nat × Str × Bool) :=
   match allowedLength e cfg with
@@ -523,11 +531,8 @@ def reply (e : Env) (cfg : Cfg) (chunks : List Str) (s : Str) : ReplyRes :=
       if allowed < reserve then .unsupported
       else match ircWrap chunks s1 (allowed - reserve) with
         | .ok lines =>
-          let msgs := buildMsgs e lines.reverse []
-          let (sent, rest) := instantLoop cfg.instant msgs []
-          match popLast rest with
-          | none => .sent sent none
-          | some (x, stored) => .sent (sent ++ [x]) (some stored)
+          -- `chunks = chunks[:maximumMores]`: reply.mores.maximum is the maximum number of chunks
+          deliver e cfg (lines.take cfg.maximumMores)
         | r => .wrapFailed r
 
 /-! ## the other shapes of a reply -/
